@@ -263,9 +263,11 @@ class Model(nn.Module):
     def _add_knowledge(self, *formulae: Formula, world: World = None):
         for idx, f in enumerate(formulae):
             _exceptions.AssertFormula(f)
+            is_member = f in self.graph
             self.graph.add_node(f)
             self.graph.add_edges_from(f.edge_list)
-            self.num_formulae = f.set_formula_number(self.num_formulae) + 1
+            if not is_member:
+                self.num_formulae = f.set_formula_number(self.num_formulae) + 1
         for node in self.graph.nodes:
             if node.structure in self.node_structures:
                 if node not in self.node_structures[node.structure]:
